@@ -174,6 +174,8 @@ def check_point(case):
         if fx > fmax + tol:
             return Outcome(violation={"clause": "exceeds-fmax", "msg": "%s(%r).f(%r) = %r > fmax = %r" % (name, params, x, fx, fmax),
                                       "round": None}, classes=classes, info={"target": float(fx - fmax)})
+        if case.get("light"):  # dense sub-check: bound and finiteness only
+            return Outcome(nontrivial=False, classes=classes + ["near-max"], rounds=1)  # counted, not digested (millions)
         # purity
         if any(type(a) is not type(b) or a != b for a, b in zip(x, x_before)) or len(x) != len(x_before):
             return Outcome(violation={"clause": "input-mutated", "msg": "%s.f changed its argument %r -> %r" % (name, x_before, x),
@@ -309,7 +311,36 @@ def check_case(case):
     return check_point(case)
 
 
+def near_max_cases(tier, shard=0, nshards=1):
+    """Dense sampling of the thin neighbourhood of each maximiser, log-uniform in the distance (1e-1 .. 1e-16 of
+    the box width): where the terms of f cancel and a last-bit difference decides the sign of fmax - f."""
+    import random
+
+    rng = random.Random(20260929 * 1000 + shard)  # every shard draws its own share
+    per = (100000 if tier == "quick" else 1000000) // nshards
+    centres = {
+        "Garland": [[math.pi / 6], [0.5]], "Perturbed_Garland": [[math.pi / 6]],
+        "DoubleSine": [[0.5]], "Perturbed_DoubleSine": [[0.5]], "DifficultFunc": [[0.5]],
+        "Ackley": [[0.0, 0.0]], "Ackley_Normalized": [[0.0, 0.0]],
+        "Himmelblau": HIMMEL_MAX, "Himmelblau_Normalized": HIMMEL_MAX,
+        "Rastrigin": [[0.0, 0.0]], "Rastrigin_Normalized": [[0.0, 0.0]], "Cexample": [[0.0]],
+    }
+    for name, cs in centres.items():
+        params = {"rho1": 0.3, "rho2": 0.8, "tmax": 0.5} if "DoubleSine" in name else ({"p": 2} if "Rastrigin" in name else {})
+        if name.startswith("Perturbed"):
+            params["perturb_seed"] = 11
+        bx = boxes(name, params)
+        for i in range(per * (6 if len(bx) == 1 else 1)):
+            c = cs[i % len(cs)]
+            x = []
+            for k, (lo, hi) in enumerate(bx):
+                off = (hi - lo) * 10.0 ** (-rng.uniform(1, 16)) * rng.choice((-1, 1))
+                x.append(min(max(c[k] + off, lo), hi))
+            yield {"obj": name, "params": params, "x": x, "xtype": "float", "light": True}
+
+
 def run_shard(ctx):
+    ctx.enumerate("near-max", near_max_cases(ctx.tier, ctx.shard, ctx.nshards), check_case, presliced=True)
     ctx.enumerate("attain", attain_cases(), check_case)
     ctx.enumerate("dimension", dimension_cases(), check_case)
     ctx.drive("points", cases(), check_case, ctx.budget(240000, 3000000), use_target=True)
